@@ -79,7 +79,7 @@ func c08Curve[P curves.Point[P, F, S], F algebra.FiniteFieldElement[F], S algebr
 	sf := curve.ScalarField()
 	rounds := 1
 	if c.Thorough() {
-		rounds = 2
+		rounds = 1 // one round already takes ~15 min of harness time (Fischlin provers); wider mutation, all curves/compilers
 	}
 	rs := func() S { return scalarFromBig(sf, r.BigBelow(fieldOrder(sf))) }
 	// quick tier: the 381-bit curve only runs Schnorr, its OR composition and batch Schnorr
